@@ -983,9 +983,178 @@ def _run_reassign(case):
     return c09._run_aper(dict(aper=case['aper'], len=case['len']))
 
 
+# ---- end-to-end masks of the public classes (concrete, solver-enumerated) ---
+AREA_SHAPES = ('circle', 'ellipse', 'rectangle', 'cann', 'eann', 'rann')
+
+
+def _area_aperture(shape, cx, cy, size, ratio, theta):
+    import photutils.aperture as pa
+    a, b = size, size * ratio
+    if shape == 'circle':
+        return pa.CircularAperture((cx, cy), a), math.pi * a * a
+    if shape == 'ellipse':
+        return pa.EllipticalAperture((cx, cy), a, b, theta=theta), \
+            math.pi * a * b
+    if shape == 'rectangle':
+        return pa.RectangularAperture((cx, cy), 2 * a, 2 * b, theta=theta), \
+            4 * a * b
+    if shape == 'cann':
+        return pa.CircularAnnulus((cx, cy), 0.6 * a, a), \
+            math.pi * a * a * (1 - 0.36)
+    if shape == 'eann':
+        return pa.EllipticalAnnulus((cx, cy), 0.5 * a, a, b, theta=theta), \
+            math.pi * a * b * (1 - 0.25)
+    return pa.RectangularAnnulus((cx, cy), a, 2 * a, 2 * b, theta=theta), \
+        4 * a * b * (1 - 0.25)
+
+
+def _inside(shape, x, y, cx, cy, size, ratio, theta):
+    """signed 'level' of a point: < 1 inside, > 1 outside (outer, inner)."""
+    a, b = size, size * ratio
+    c, s_ = math.cos(theta), math.sin(theta)
+    u = (x - cx) * c + (y - cy) * s_
+    v = -(x - cx) * s_ + (y - cy) * c
+    if shape in ('circle', 'cann'):
+        r = math.hypot(x - cx, y - cy)
+        return (r / a, r / (0.6 * a) if shape == 'cann' else None)
+    if shape in ('ellipse', 'eann'):
+        lv = math.hypot(u / a, v / b)
+        return (lv, lv / 0.5 if shape == 'eann' else None)
+    lv = max(abs(u) / a, abs(v) / b)
+    return (lv, lv / 0.5 if shape == 'rann' else None)
+
+
+def _area_check(shape, dx, dy, size, ratio, theta, method, sp):
+    aper, area = _area_aperture(shape, 20 + dx, 17 + dy, size, ratio, theta)
+    m = aper.to_mask(method=method, subpixels=sp)
+    w = np.asarray(m.data, float)
+    if (w < -1e-12).any() or (w > 1 + 1e-12).any():
+        return f'weights outside [0, 1]: min {w.min()} max {w.max()}'
+    bb = m.bbox
+    if w.shape != (bb.iymax - bb.iymin, bb.ixmax - bb.ixmin):
+        return f'mask shape {w.shape} does not match its bounding box {bb}'
+    if method == 'exact':
+        # rectangles are documented to be 32x32 sub-sampled
+        # (error bound of sub-sampling: boundary length x sub-pixel size)
+        per = 4 * (size + size * ratio) * (1.5 if shape == 'rann' else 1)
+        tol = 1e-9 * area if shape in ('circle', 'ellipse', 'cann',
+                                       'eann') else per / 32
+        if abs(w.sum() - area) > tol:
+            return (f'sum of exact weights {w.sum()!r} != analytic area '
+                    f'{area!r}')
+    n = 1 if method == 'center' else sp
+    if method in ('center', 'subpixel'):
+        for j in range(w.shape[0]):
+            for i in range(w.shape[1]):
+                cnt = amb = 0
+                for sj in range(n):
+                    for si in range(n):
+                        x = bb.ixmin + i - 0.5 + (si + 0.5) / n
+                        y = bb.iymin + j - 0.5 + (sj + 0.5) / n
+                        lo, li = _inside(shape, x, y, 20 + dx, 17 + dy, size,
+                                         ratio, theta)
+                        if abs(lo - 1) < 1e-9 or (li is not None
+                                                  and abs(li - 1) < 1e-9):
+                            amb += 1
+                        elif lo < 1 and (li is None or li > 1):
+                            cnt += 1
+                if not (cnt - 1e-9 <= w[j, i] * n * n <= cnt + amb + 1e-9):
+                    return (f'pixel ({bb.ixmin + i},{bb.iymin + j}): weight '
+                            f'{w[j, i]} but {cnt} (+{amb} on the boundary) '
+                            f'of {n * n} sub-pixel centres are inside')
+    # the box must contain the shape and be tight to within one pixel
+    t = np.linspace(0, 2 * math.pi, 721)
+    a, b = size, size * ratio
+    if shape in ('circle', 'cann'):
+        xs, ys = a * np.cos(t), a * np.sin(t)
+    elif shape in ('ellipse', 'eann'):
+        xs = a * np.cos(t) * math.cos(theta) - b * np.sin(t) * math.sin(theta)
+        ys = a * np.cos(t) * math.sin(theta) + b * np.sin(t) * math.cos(theta)
+    else:
+        cr = np.array([(a, b), (-a, b), (-a, -b), (a, -b)], float)
+        xs = cr[:, 0] * math.cos(theta) - cr[:, 1] * math.sin(theta)
+        ys = cr[:, 0] * math.sin(theta) + cr[:, 1] * math.cos(theta)
+    x0, x1 = 20 + dx + xs.min(), 20 + dx + xs.max()
+    y0, y1 = 17 + dy + ys.min(), 17 + dy + ys.max()
+    if not (bb.ixmin - 0.5 <= x0 + 1e-9 and x1 - 1e-9 <= bb.ixmax - 0.5
+            and bb.iymin - 0.5 <= y0 + 1e-9 and y1 - 1e-9 <= bb.iymax - 0.5):
+        return f'bounding box {bb} does not contain the shape'
+    if (x0 - (bb.ixmin - 0.5) >= 1 + 1e-6 or (bb.ixmax - 0.5) - x1 >= 1 + 1e-6
+            or y0 - (bb.iymin - 0.5) >= 1 + 1e-6
+            or (bb.iymax - 0.5) - y1 >= 1 + 1e-6):
+        return f'bounding box {bb} is not the smallest box around the shape'
+    return None
+
+
+# degenerate configurations (a pixel corner exactly on the curve, tangency,
+# centre on a pixel corner): (shape, cx-20, cy-17, size, ratio, theta)
+AREA_DEGENERATE = (
+    ('ellipse', 0.0, 0.0, 2.5, 0.25, 0.0),
+    ('ellipse', 0.0, 0.5, 2.5, 0.6, math.pi / 4),
+    ('ellipse', 0.5, 0.5, 1.0, 1.0, 0.3),
+    ('ellipse', 0.0, 0.0, 0.5, 1.0, math.pi / 4),
+    ('ellipse', 0.0, 0.0, 2.5, 1.0, 0.0),
+    ('ellipse', 0.0, 0.0, 0.3, 2 / 3, 0.0),
+    ('circle', 0.0, 0.0, 2.5, 1.0, 0.0),
+    ('circle', 0.0, 0.0, 0.5, 1.0, 0.0),
+    ('circle', 0.5, 0.5, 1.0, 1.0, 0.0),
+    ('cann', 0.0, 0.0, 2.5, 1.0, 0.0),
+    ('eann', 0.0, 0.5, 1.0, 1.0, 0.0),
+    ('rectangle', 0.0, 0.0, 1.5, 1.0, 0.0),
+    ('rectangle', 0.5, 0.5, 1.0, 0.5, math.pi / 2),
+)
+
+
+def _run_area(case):
+    cnt = dict(n=0)
+    samples = []
+    methods = (('exact', 1), ('center', 1), ('subpixel', 2), ('subpixel', 5))
+
+    def fn(ctx):
+        if case.get('degenerate'):
+            shape, dx, dy, size, ratio, theta = ctx.choice(
+                'cfg', AREA_DEGENERATE)
+            method, sp = 'exact', 1
+        else:
+            shape = case['shape']
+            dx = ctx.choice('dx', (0.0, 0.25, 0.5, -0.3))
+            dy = ctx.choice('dy', (0.0, 0.5, -0.37))
+            size = ctx.choice('size', (0.43, 1.07, 2.51, 3.7))
+            ratio = ctx.choice('ratio', (1.0, 0.6, 0.25)) if shape not in (
+                'circle', 'cann') else 1.0
+            theta = ctx.choice('theta', (0.0, 0.3, math.pi / 4, 1.9, -2.0)) \
+                if shape not in ('circle', 'cann') else 0.0
+            method, sp = ctx.choice('method', methods)
+        ctx.stats.obligations += 1
+        cnt['n'] += 1
+        msg = _area_check(shape, dx, dy, size, ratio, theta, method, sp)
+        if case.get('twin') and method == 'exact' and msg is None:
+            msg = 'twin: exact area deliberately mis-specified'
+        if msg is None:
+            ctx.stats.unsat += 1
+        else:
+            ctx.stats.sat += 1
+            # one key per configuration (known findings are listed per input)
+            ctx.find(f'mask:{shape}:{method}{sp}:c=({dx:g},{dy:g}):size={size:g}'
+                     f':ratio={ratio:.3g}:theta={theta:.4g}',
+                     f'{shape} centre=({20 + dx},{17 + dy}) size={size} '
+                     f'ratio={ratio} theta={theta} {method}: {msg}',
+                     ctx.witness(),
+                     params=dict(kind='area', shape=shape, args=[
+                         dx, dy, size, ratio, theta, method, sp],
+                         twin=bool(case.get('twin'))))
+        if len(samples) < 1:
+            samples.append(dict(shape=shape, dx=dx, dy=dy, size=size))
+
+    _, st, f = explore(fn)
+    return dict(stats=st, findings=f, samples=samples, nontrivial=cnt['n'])
+
+
 def run_case(case):
     if case['kind'] == 'reassign':
         return _run_reassign(case)
+    if case['kind'] == 'area':
+        return _run_area(case)
     return {'from_float': _run_from_float, 'slices': _run_slices,
             'setops': _run_setops, 'extent': _run_extent,
             'wiring': _run_wiring, 'kernel': _run_kernel,
@@ -1006,6 +1175,12 @@ def cases(tier, seed):
     cs.append(dict(kind='extent', name='extent-ellipse-twin', shape='ellipse',
                    twin=True))
     cs.append(dict(kind='wiring', name='to_mask-wiring'))
+    for sh in AREA_SHAPES:
+        cs.append(dict(kind='area', name=f'public-mask-{sh}', shape=sh))
+    cs.append(dict(kind='area', name='public-mask-degenerate',
+                   degenerate=True))
+    cs.append(dict(kind='area', name='public-mask-twin', shape='circle',
+                   twin=True))
     for a in ('circ', 'ell', 'rect', 'eann'):
         cs.append(dict(kind='reassign', name=f'cached-bbox-reassign-{a}',
                        aper=a, len=2))
@@ -1056,6 +1231,11 @@ def replay(f):
     if k == 'aper':
         from . import c09
         return c09.replay(f)
+    if k == 'area':
+        if p.get('twin'):
+            return False, 'twin'
+        msg = _area_check(p['shape'], *p['args'])
+        return msg is not None, str(msg)
     if k == 'slices':
         msg = _slices_check(tuple(p['box']), tuple(p['shape']))
         return msg is not None, str(msg)
